@@ -10,6 +10,7 @@ import (
 	"go/ast"
 	"go/parser"
 	"go/token"
+	"go/types"
 	"strings"
 )
 
@@ -53,6 +54,10 @@ type Emitted struct {
 	Idents    []string // every identifier token of the file (deduplicated, in order)
 	Selectors []string // every qualified identifier X.Sel with X a plain identifier: "X.Sel"
 	Comments  []string
+	// Unresolved: identifiers used but declared neither in the file (locals,
+	// parameters, named results, package-level declarations, imports) nor in
+	// Go's universe scope — i.e. what other files of the package must declare.
+	Unresolved []string
 }
 
 type extractor struct {
@@ -187,6 +192,21 @@ func Extract(src string) Emitted {
 		}
 		return true
 	})
+	seenU := map[string]bool{}
+	for _, im := range out.Imports { // the parser leaves imported package names unresolved
+		name := im.Alias
+		if name == "" {
+			name = im.Path[strings.LastIndex(im.Path, "/")+1:]
+		}
+		seenU[name] = true
+	}
+	for _, id := range f.Unresolved {
+		if types.Universe.Lookup(id.Name) != nil || id.Name == "_" || seenU[id.Name] {
+			continue
+		}
+		seenU[id.Name] = true
+		out.Unresolved = append(out.Unresolved, id.Name)
+	}
 	for _, d := range f.Decls {
 		switch d := d.(type) {
 		case *ast.GenDecl:
